@@ -31,6 +31,7 @@ type Opts struct {
 	UnitPrice   bool   // validator-share and delegator-share prices fixed to 1 (keeps structural queries linear)
 	Unbonding   int64  // staking unbonding time in ns (0 => symbolic 1s..10y)
 	BlockTime   *time.Time
+	DustVal     bool // validator 2 holds a remainder of validator shares of denom 0 but no delegation (it was fully exited)
 	Params      bool // symbolic take-rate clock (interval, last claim time); else default params, clock = block time
 }
 
@@ -59,6 +60,9 @@ func posIn(ps []Pos, d, v, a int) bool {
 func Build(ps []Pos, o Opts) *State {
 	if o.NVals == 0 {
 		o.NVals = 2
+	}
+	if o.DustVal && o.NVals < 3 {
+		o.NVals = 3
 	}
 	if o.NDenoms == 0 {
 		o.NDenoms = 1
@@ -185,6 +189,16 @@ func Build(ps []Pos, o Opts) *State {
 				})
 			}
 			if err := e.K.SetValidatorInfo(e.Ctx, Vals[v], info); err != nil {
+				panic(err)
+			}
+		}
+		if o.DustVal && a == 0 && anyStake {
+			// reachable (seeded change C03-reset-skips...): the last delegator left while the record kept shares worth < 0.01 token
+			dust := nd.DecRange("dustvs", "0.000000000000000001", "0.009")
+			tvs = tvs.Add(dust)
+			info := types.NewAllianceValidatorInfo()
+			info.ValidatorShares = sdk.NewDecCoins(sdk.NewDecCoinFromDec(denom, dust))
+			if err := e.K.SetValidatorInfo(e.Ctx, Vals[2], info); err != nil {
 				panic(err)
 			}
 		}
